@@ -15,7 +15,16 @@ pub enum IggyError {
     CannotAppendToFile, CannotWriteToFile, CannotOverwriteFile, CannotSyncFile, CannotEncryptData, CannotDecryptData,
     Other,
 }
-pub struct IoError { pub kind: u8 }      // std::io::Error: content irrelevant (always mapped away)
+pub struct IoError { pub kind: u8 }      // std::io::Error: content irrelevant (always mapped away) except for its kind, see below
+// std::io::ErrorKind as far as a reader can tell: the accessor of the real error type is offered so that an edit branching on it is
+// decided by the clauses (seed C11_6 ends the load loop on UnexpectedEof)
+#[derive(PartialEq, Eq, Clone, Copy)]
+pub enum ErrorKind { UnexpectedEof, Other }
+impl IoError {
+    pub fn kind(&self) -> (r: ErrorKind) ensures (r == ErrorKind::UnexpectedEof) == (self.kind == 1u8) {
+        if self.kind == 1u8 { ErrorKind::UnexpectedEof } else { ErrorKind::Other }
+    }
+}
 
 // --- atomics (R6): plain integers; the memory ordering argument is kept and ignored -------------------------------
 pub enum Ordering { Relaxed, Release, Acquire, AcqRel, SeqCst }
@@ -129,6 +138,9 @@ impl BufReader {
             final(self).data() == old(self).data(),
             r matches Ok(v) ==> old(self).pos() + 8 <= old(self).data().len() && final(self).pos() == old(self).pos() + 8
                 && le64(v) == old(self).data().subrange(old(self).pos() as int, old(self).pos() as int + 8),
+            // tokio AsyncReadExt::read_u64_le = read_exact of 8 bytes: the error is UnexpectedEof exactly when fewer than 8 bytes
+            // remain — ALSO when 1..7 stray bytes remain, not only at a clean end (other I/O errors can occur at any time)
+            r matches Err(e) ==> (e.kind == 1u8) == (old(self).pos() + 8 > old(self).data().len()),
     { unimplemented!() }
 
     #[verifier::external_body]
